@@ -12,7 +12,8 @@ import graph (cycles, self-imports, dangling targets).
 Not proved here, only exercised by the harness: `json.dumps` + compaction regex + `json.loads`,
 `sqlite3`, and the agreement of the model with the Python (correspondence).
 -/
-import Paroxy.Proofs.MakeDb
+import Paroxy.Proofs.MakeDbResolved
+import Paroxy.Spec.Filter
 namespace Paroxy.Props.C11
 open Paroxy Paroxy.DB
 
@@ -214,8 +215,8 @@ theorem makeDb_wf (h : makeDb toTaxa progs = .ok db) (hn : (pathsOf progs).Nodup
     exact ⟨hpq.1, Reach.trans hpq.2 hqr.2⟩
 
 /-- **makeDb_ok_iff.** The model (like `TagDatabase.__init__`) returns a database exactly when every
-direct internal import names a collected program; otherwise it raises `KeyError` (see
-`C11_total_counterexample`). The closure itself always terminates: it is a total function. -/
+direct internal import names a collected program; otherwise it raises `KeyError` (which, since fix
+77a08ea, needs a raw `import_internally:` label: `C11_total`, `C11_total_needs_rawLabels`). The closure itself always terminates: it is a total function. -/
 theorem makeDb_ok_iff : (∃ db, makeDb toTaxa progs = .ok db) ↔ Resolved progs := by
   constructor
   · rintro ⟨db, h⟩ p q hpq
@@ -286,75 +287,188 @@ theorem C11_sqlite_rows (db : Db) :
     obtain ⟨e, -, l, -, s, -, rfl⟩ := hr
     rfl
 
-/-! ### Totality: the open finding (dotted paths) -/
+/-! ### Totality (after fix 77a08ea) -/
 
-/-- Full statement: collecting never aborts. FALSE on the current tree (see the counterexample):
-`labelled_programs` decides that `import a.b` is internal by comparing `"a.b.py"` with the collected
-paths in which `/` is replaced by `.`, but then names the target `a/b.py`, which is not a collected
-path when the file is `a.b.py` (or lives in a directory `a.b/`); `compute_and_collect_exportations`
-then raises `KeyError`. -/
-def C11_total : Prop :=
-  ∀ (toTaxa : Name → List Label → List Taxon) (progs : List Prog), (pathsOf progs).Nodup →
-    ∃ db, makeDb toTaxa progs = .ok db
-
-/-- What holds instead: collecting returns whenever the direct internal imports are resolved. -/
-theorem C11_total_partial (hres : Resolved progs) : ∃ db, makeDb toTaxa progs = .ok db :=
-  makeDb_ok_iff.mpr hres
+/-- **C11 (collecting always returns).** For every collection whose raw labels are parser labels
+(none already has the `import_internally:` form — spec.md has no such feature), every direct internal
+import names a collected path, hence the model (like `TagDatabase.__init__`) returns a database:
+no `KeyError`, whatever the file and directory names (dots included) and the import graph. -/
+theorem C11_total (hraw : RawLabels progs) : ∃ db, makeDb toTaxa progs = .ok db :=
+  makeDb_ok_iff.mpr (resolved_of_rawLabels hraw)
 
 def exA : Name := [97, 46, 112, 121]          -- "a.py"
 def exB : Name := [98, 46, 112, 121]          -- "b.py"
 def exC : Name := [99, 46, 112, 121]          -- "c.py"
 def exAB : Name := [97, 46, 98, 46, 112, 121] -- "a.b.py"
-def exAsB : Name := [97, 47, 98, 46, 112, 121] -- "a/b.py"
 def impA : Name := [105, 109, 112, 111, 114, 116, 58, 97]   -- "import:a"
 def impB : Name := [105, 109, 112, 111, 114, 116, 58, 98]   -- "import:b"
 def impAB : Name := [105, 109, 112, 111, 114, 116, 58, 97, 46, 98]  -- "import:a.b"
+def intZ : Name := sInternalPrefix ++ [122]   -- "import_internally:z"
 
-/-- `a.b.py` and `c.py` containing `import a.b`. -/
+/-- The input of the repaired finding F26: `a.b.py` and `c.py` containing `import a.b`. The import is
+no longer taken for an internal one (`a/b.py` is not collected), and a database is returned. -/
 def dottedProgs : List Prog :=
   [{ path := exAB, timestamp := [], source := [], labels := [] },
    { path := exC, timestamp := [], source := [], labels := [{ name := impAB, spans := [(1, 1, [])] }] }]
 
-theorem dotted_directD : directD dottedProgs = [(exAB, []), (exC, [exAsB])] := by decide
+theorem dotted_ok : directD dottedProgs = [(exAB, []), (exC, [])] ∧
+    ∃ db, makeDb toTaxa dottedProgs = .ok db :=
+  ⟨by decide, C11_total (by decide)⟩
 
-theorem C11_total_counterexample : ¬ C11_total := by
+/-- Why `RawLabels` is a hypothesis: a raw label `import_internally:z` (only a hint comment
+`# paroxython: import_internally:z` can produce one; hints are outside C11's quantifier) names `z.py`
+without any membership test, and `compute_and_collect_exportations` raises `KeyError` — observed on
+the real code too. -/
+def hintProgs : List Prog :=
+  [{ path := exA, timestamp := [], source := [], labels := [{ name := intZ, spans := [] }] }]
+
+theorem C11_total_needs_rawLabels : ¬ ∃ db, makeDb toTaxa hintProgs = .ok db := by
   intro h
-  obtain ⟨db, hdb⟩ := h (fun _ _ => []) dottedProgs (by decide)
-  have hres : Resolved dottedProgs := makeDb_ok_iff.mp ⟨db, hdb⟩
-  have himp : Imports dottedProgs exC exAsB := by
+  have hres := makeDb_ok_iff.mp h
+  have hd : directD hintProgs = [(exA, [[122, 46, 112, 121]])] := by decide
+  have himp : Imports hintProgs exA [122, 46, 112, 121] := by
     unfold Imports Direct
-    rw [dotted_directD]
+    rw [hd]
     decide
-  have := hres exC exAsB himp
+  have := hres exA _ himp
   revert this
   decide
 
-/-- Non-vacuity: a two-program import cycle (`a.py`: `import b`, `b.py`: `import a`) is resolved, so
-the model returns a database for it, and all the theorems above apply to it. -/
+/-- Non-vacuity: a two-program import cycle (`a.py`: `import b`, `b.py`: `import a`). -/
 def cycleProgs : List Prog :=
   [{ path := exA, timestamp := [], source := [], labels := [{ name := impB, spans := [(1, 1, [])] }] },
    { path := exB, timestamp := [], source := [], labels := [{ name := impA, spans := [(1, 1, [])] }] }]
 
 theorem cycle_directD : directD cycleProgs = [(exA, [exB]), (exB, [exA])] := by decide
 
-example : Resolved cycleProgs ∧ (pathsOf cycleProgs).Nodup ∧
+example : RawLabels cycleProgs ∧ (pathsOf cycleProgs).Nodup ∧
     Relation.TransGen (Imports cycleProgs) exA exA := by
   have hab : Imports cycleProgs exA exB := by
     unfold Imports Direct; rw [cycle_directD]; decide
   have hba : Imports cycleProgs exB exA := by
     unfold Imports Direct; rw [cycle_directD]; decide
-  refine ⟨?_, by decide, Relation.TransGen.tail (Relation.TransGen.single hab) hba⟩
-  intro p q h
-  unfold Imports Direct at h
-  rw [cycle_directD] at h
-  unfold succs at h
-  simp only [get?] at h
-  split at h
-  · simp only [Option.getD_some, List.mem_singleton] at h
-    rw [h]; decide
-  · split at h
-    · simp only [Option.getD_some, List.mem_singleton] at h
-      rw [h]; decide
-    · simp at h
+  exact ⟨by decide, by decide, Relation.TransGen.tail (Relation.TransGen.single hab) hba⟩
+
+/-! ### Bridge to the filter properties (C04–C07) -/
+
+/-- The tag database as the filter reads it: per program its `taxa` record, the `taxa` index, and
+the importation / exportation dictionaries. Names are the same code-point lists. -/
+def toFilterDB (db : Db) : Paroxy.Filter.DB :=
+  { programs := db.programs.map fun e => (e.1, e.2.taxa)
+    taxa := db.taxa
+    importations := db.importations
+    exportations := db.exportations }
+
+theorem dictGet?_eq_get? {β : Type} (d : List (Name × β)) (k : Name) : dictGet? d k = get? d k := by
+  induction d with
+  | nil => rfl
+  | cons e t ih =>
+    obtain ⟨k', v⟩ := e
+    simp only [dictGet?, get?, ih]
+
+theorem mem_getD_iff {d : List (Name × List Name)} {k p : Name} :
+    p ∈ (dictGet? d k).getD [] ↔ InAt d k p := by
+  rw [dictGet?_eq_get?]
+  unfold InAt
+  cases get? d k with
+  | none => simp
+  | some l => simp
+
+/-- The taxonomy oracle returns no taxon with an empty bag of spans (what `deduplicated_taxa`
+guarantees: "if spans:  # if any item remains in the bag"). -/
+def TaxaNonempty (toTaxa : Name → List Label → List Taxon) (progs : List Prog) : Prop :=
+  ∀ p ∈ progs, ∀ t ∈ toTaxa p.path (labelsOf (internalOf progs) p), t.spans ≠ []
+
+/-- **makeDb_filter_wf.** Every database the model builds — from distinct paths and a taxonomy whose
+taxa all have at least one span — satisfies `Paroxy.Filter.DB.WF`, the hypothesis under which
+`add_imported_taxa` succeeds and the filter theorems C04–C07 hold (`C04_ctx_wf_of_db_wf`,
+`addImported_spec`). The uniqueness of the taxon keys of a record needs no hypothesis: it is
+established by `prepared_taxa` (dictionary assignment). -/
+theorem makeDb_filter_wf (h : makeDb toTaxa progs = .ok db) (hn : (pathsOf progs).Nodup)
+    (hne : TaxaNonempty toTaxa progs) : Paroxy.Filter.DB.WF (toFilterDB db) := by
+  have wf := makeDb_wf h hn
+  obtain ⟨hprog, -⟩ := C11_records h hn
+  have hkeys : (toFilterDB db).programs.map (·.1) = keys db.programs := by
+    simp [toFilterDB, keys, List.map_map, Function.comp_def]
+  have hrec : ∀ p rec, (p, rec) ∈ (toFilterDB db).programs →
+      ∃ q ∈ progs, q.path = p ∧ rec = preparedTaxa (toTaxa q.path (labelsOf (internalOf progs) q)) := by
+    intro p rec hm
+    simp only [toFilterDB, hprog, List.map_map, List.mem_map, Function.comp_apply,
+      Prod.mk.injEq] at hm
+    obtain ⟨q, hq, e1, e2⟩ := hm
+    exact ⟨q, hq, e1, e2.symm⟩
+  have hget : ∀ p rec, (p, rec) ∈ (toFilterDB db).programs ↔
+      ∃ r, get? db.programs p = some r ∧ rec = r.taxa := by
+    intro p rec
+    constructor
+    · intro hm
+      simp only [toFilterDB, List.mem_map, Prod.mk.injEq] at hm
+      obtain ⟨e, he, e1, e2⟩ := hm
+      refine ⟨e.2, ?_, e2.symm⟩
+      rw [← e1]
+      exact get?_of_mem_nodup wf.paths_nodup he
+    · rintro ⟨r, hr, rfl⟩
+      simp only [toFilterDB, List.mem_map, Prod.mk.injEq]
+      exact ⟨(p, r), get?_mem hr, rfl, rfl⟩
+  have hexp : ∀ q p, (toFilterDB db).Exp q p ↔ InAt db.exportations p q := by
+    intro q p; exact mem_getD_iff
+  refine ⟨by rw [hkeys]; exact wf.paths_nodup, ?_, ?_, ?_, ?_, ?_, ?_, ?_, ?_⟩
+  · intro p rec hm
+    obtain ⟨q, -, -, rfl⟩ := hrec p rec hm
+    exact (preparedTaxa_props _).2.2
+  · show (keys db.exportations).Nodup
+    rw [wf.exp_keys]; exact wf.paths_nodup
+  · intro p rec t spans hm ht
+    obtain ⟨q, hq, -, rfl⟩ := hrec p rec hm
+    obtain ⟨t', ht', -, hv⟩ := (preparedTaxa_props _).1 (t, spans) ht
+    simp only at hv
+    intro hnil
+    rw [hnil] at hv
+    have hs := hne q hq t' ht'
+    cases hsp : t'.spans with
+    | nil => exact hs hsp
+    | cons x xs =>
+      have : Span3.poor x ∈ preparedSpans t'.spans :=
+        mem_preparedSpans.mpr ⟨x, by rw [hsp]; exact List.mem_cons_self, rfl⟩
+      rw [← hv] at this
+      cases this
+  · intro t p
+    show p ∈ (dictGet? db.taxa t).getD [] ↔ _
+    rw [mem_getD_iff, wf.taxa_index]
+    constructor
+    · rintro ⟨r, hr, ht⟩
+      obtain ⟨e, he, hk⟩ := List.mem_map.mp ht
+      exact ⟨r.taxa, e.2, (hget p r.taxa).mpr ⟨r, hr, rfl⟩, by rw [← hk]; exact he⟩
+    · rintro ⟨rec, spans, hm, ht⟩
+      obtain ⟨r, hr, rfl⟩ := (hget p rec).mp hm
+      exact ⟨r, hr, List.mem_map.mpr ⟨(t, spans), ht, rfl⟩⟩
+  · intro t p rec spans hm ht
+    obtain ⟨r, hr, rfl⟩ := (hget p rec).mp hm
+    have hin : InAt db.taxa t p :=
+      (wf.taxa_index t p).mpr ⟨r, hr, List.mem_map.mpr ⟨(t, spans), ht, rfl⟩⟩
+    obtain ⟨l, hl, -⟩ := hin
+    exact get?_isSome.mp ⟨l, hl⟩
+  · intro p
+    show p ∈ keys db.exportations ↔ p ∈ (toFilterDB db).programs.map (·.1)
+    rw [hkeys, wf.exp_keys]
+  · intro p q hq
+    rw [hexp, wf.exp_inverse] at hq
+    obtain ⟨l, hl, -⟩ := hq
+    rw [hkeys, ← wf.imp_keys]
+    exact get?_isSome.mp ⟨l, hl⟩
+  · intro a b d hab hbd
+    rw [hexp, wf.exp_inverse] at hab hbd ⊢
+    exact wf.imp_trans a b d hab hbd
+
+/-- Non-vacuity of the bridge: the two-program cycle, with a taxonomy giving every program one taxon
+with one span, yields a database to which the filter theorems apply. -/
+example : ∃ db, makeDb (fun _ _ => [{ name := [120], spans := [(1, 1, [])] }]) cycleProgs = .ok db ∧
+    Paroxy.Filter.DB.WF (toFilterDB db) := by
+  obtain ⟨db, h⟩ := C11_total (toTaxa := fun _ _ => [{ name := [120], spans := [(1, 1, [])] }])
+    (progs := cycleProgs) (by decide)
+  refine ⟨db, h, makeDb_filter_wf h (by decide) ?_⟩
+  intro p _ t ht
+  simp only [List.mem_singleton] at ht
+  rw [ht]; simp
 
 end Paroxy.Props.C11
